@@ -76,14 +76,14 @@ CHECKS = {
                 "that shape open, so for those argvs only the metamorphic clauses are asserted; oracle: accepted(empty) => accepted(E); for specs without -- identical option value lists "
                 "(known finding F11: the value of o in '-<flags>o=v' is read as 'v' or '=v' depending on matcher order); reference-model verdict under E; "
                 "non-trivial = E non-empty, accepted under E, and an option of E occurs 0 times (fallback) or >= 2 times on the command line; distinct by (program, argv, E)",
-        "required_classes": {"env-enlarges": 0.01, "both-accept": 0.2, "token-shape:accepted-without-env": 0.002},
+        "required_classes": {"env-enlarges": 0.01, "both-accept": 0.2, "token-shape:metamorphic-clauses-only": 0.003},
         "assumptions": COMMON_ASSUMPTIONS,
     },
     "C08": {
         "tests": [
             {"name": "TestC08Exhaustive", "quick": 16, "thorough": 16, "rapid": False, "timeout": 1500,
              "env": {"VERIF_C08_L": 6, "VERIF_C08_NAMINGS": "all", "VERIF_C08_L2": 5}, "env_thorough": {"VERIF_C08_L": 7, "VERIF_C08_L2": 6}},
-            {"name": "TestC08Random", "quick": 480000, "thorough": 4800000},
+            {"name": "TestC08Random", "quick": 480000, "thorough": 4800000, "env": {"VERIF_C08_L": 5}, "env_thorough": {"VERIF_C08_L": 6}},
         ],
         "fuzz": [{"name": "FuzzSpecString", "time": "180s"}],
         "rule": "(a) EXHAUSTIVE: every string up to length L over the 19-symbol character-class alphabet {space, TAB, [ ] ( ) | . - = < > a b X Y 1 _ 0xC3} "
@@ -108,17 +108,17 @@ CHECKS = {
                 "oracle: exactly one of {spec error = panic(*lexer.ParseError) with 0 <= Pos <= len(spec) and a printable message, accepted, usage error, help}; "
                 "non-trivial = spec with a repetition whose body can match without consuming (optional, --, env-backed option) or containing non-UTF-8/control bytes; distinct by (spec, argv, subset)",
         "required_classes": {"outcome:accepted": 0.1, "outcome:spec-error": 0.05, "outcome:usage-error": 0.1, "spec:nested-repetition-of-nullable-or-env": 0.005, "env:some-option-backed": 0.3},
-        "assumptions": COMMON_ASSUMPTIONS + ["'never hangs' is decided by a 10 s per-call deadline (normal cost is microseconds) confirmed twice in a fresh process with a 60 s deadline"],
+        "assumptions": COMMON_ASSUMPTIONS + ["'never hangs' is decided by a 10 s per-call deadline (normal cost is microseconds) confirmed twice in a fresh process with three times the shard's per-case deadline (30 s)"],
     },
     "C05": {
         "level": "fault_enumeration",
         "tests": [
             {"name": "TestC05Exhaustive", "quick": 16, "thorough": 16, "rapid": False, "timeout": 1500,
              "env": {"VERIF_C05_DEPTH": 4}, "env_thorough": {"VERIF_C05_DEPTH": 5}},
-            {"name": "TestC05Random", "quick": 160000, "thorough": 1600000},
+            {"name": "TestC05Random", "quick": 160000, "thorough": 1600000, "env": {"VERIF_C05_DEPTH": 4}, "env_thorough": {"VERIF_C05_DEPTH": 5}},
         ],
         "rule": "fault plan = path depth d and, for each of the 2d+3 hooks (Before_0..Before_d, Action, After_0..After_d), one of {absent, returns, panics with a unique pointer value, calls Exit(100+i)}; "
-                "the 4^(2d+3) plans are ENUMERATED COMPLETELY for every d <= 4 (quick; 4 456 512 plans) / d <= 5 (thorough; 71 565 376 plans); rapid adds random plans at depth 0-8 with sibling commands at every level "
+                "the 4^(2d+3) plans are ENUMERATED COMPLETELY for every d <= 4 (quick; 4 473 920 plans) / d <= 5 (thorough; 71 582 784 plans); rapid adds random plans at depth 0-8 with sibling commands at every level "
                 "and a command below the addressed one whose hooks must never run, and in a third of the random plans a SECOND Run of the same application object with the same vector (it must behave like the first); every third hook exits with status 0 (Exit(0) is an exit like any other); oracle: reference model of the statement (order, multiplicity, Afters of exactly the levels whose Before completed, "
                 "last raised value decides: Exit(n) -> exit stub called once with n after the last After (the stub's call is an entry of the same log), other value -> the identical pointer is recovered from Run); "
                 "plans whose addressed command has no Action are not claimed (library prints help) and only get weak invariants; non-trivial = claimed plan with >= 1 panicking/exiting hook and d >= 1; plans are distinct by construction",
@@ -141,7 +141,7 @@ CHECKS = {
         "rule": "tree generator of C04 x the three error policies (set on the app before any command is declared; in addition ~1/3 of the sub commands on the path assign their own policy at the start of their initializer, which their descendants inherit) x rejection kinds: spec mismatch at a random level (token mutation), unknown subcommand / undeclared option "
                 "words, a token no value type can convert (every container is a recorder failing on one reserved token); oracle: the first level the reference semantics rejects is the rejecting command; "
                 "no hook log entry; error stream contains the error text and 'Usage: <path of the rejecting command>'; ContinueOnError -> returned error, no exit; ExitOnError -> exit stub called once with 2; "
-                "PanicOnError -> Run panics with an error whose text is in the stream; the stream is identical to the one under ContinueOnError; accepted invocations return nil, no exit, no panic. "
+                "PanicOnError -> Run panics with an error whose text is in the stream; the error text of the same invocation under ContinueOnError is in the stream (the streams themselves are not compared); accepted invocations return nil, no exit, no panic. "
                 "TestC07Values repeats the policy oracle on single-command apps whose containers are the BUILT-IN typed values (C06 generator, tokens that strconv rejects in any position, also before a valid occurrence of the same option). "
                 "non-trivial = rejection at depth >= 1 or conversion failure; distinct by (argv, policy)",
         "required_classes": {"kind:reject": 0.15, "reject:conversion": 0.01, "kind:accept": 0.02, "typed:conversion-failure-follows-policy": 0.05, "typed:unconvertible-value-before-a-valid-one": 0.01, "reject:under-a-policy-set-on-a-subcommand": 0.005},
@@ -160,7 +160,7 @@ CHECKS = {
         "tests": [{"name": "TestC06", "quick": 640000, "thorough": 6400000}],
         "rule": "cases = apps with 1-3 containers (<= 2 options named o/opt, p/popt and <= 1 argument X) of the seven built-in types declared through the typed API (BoolOpt ... Floats64Arg) with a default "
                 "(incl. zero/empty), an environment list of 0-3 variables each unset / empty / valid / invalid (multi-valued: comma lists with blank padding), and 0-3 command-line values spelled "
-                "--opt=T / -o=T / -o T / -oT / --opt T / bare flag (options under [OPTIONS] or one optional repetition per option) or positionally (argument under [X...] or [-- X...]); "
+                "--opt=T / -o=T / -o T / -oT / --opt T / bare flag (options under [OPTIONS] or one optional repetition per option) or positionally (argument under [X...] / [X], with the command line's own -- in front when a value starts with a dash); "
                 "oracle: the statement itself with strconv as validity judge - command-line values if any (multi: exactly those, single: last), else first non-empty valid variable, else default; "
                 "twin containers share one default slice object; a third of the containers use the *Ptr API; in a quarter of the cases a SECOND command line is parsed by the same application object and every container given values again must hold exactly those. "
                 "non-trivial = an accepted case with a container for which a command-line value or a non-empty variable competes with another source; distinct by full case",
@@ -209,7 +209,7 @@ CHECKS = {
     "C18": {
         "tests": [{"name": "TestC18", "quick": 800000, "thorough": 8000000}],
         "rule": "cases = sequences of 1-6 declaration calls; options carry 1-4 names drawn from a 12-name pool (so collisions inside one list, across options, between short and long forms and in either order are frequent), "
-                "declared through seven styles (Var with recorder, BoolOpt/StringOpt/IntOpt structs, BoolOpt()/StringOpt()/StringsOpt() short forms); argument names from a pool of valid identifiers, duplicates and "
+                "declared through eight styles (Var with recorder, BoolOpt/StringOpt/IntOpt structs, BoolOpt()/StringOpt()/StringsOpt() short forms, Version()); argument names from a pool of valid identifiers, duplicates and "
                 "blank-free invalid strings (lower case, digit first, OPTIONS, A-B, A.B, empty, non-ASCII, X=, [X], X...); oracle: a name-table model - the panic must come at exactly the first colliding / invalid "
                 "declaration and nowhere else; for every surviving declaration set each listed name is probed in its own run ('-n' / '--name[=v]', one-letter names short, others long) and exactly the owning variable "
                 "must change while all others keep their defaults and the arguments receive the positionals in declaration order. non-trivial = first invalid declaration is not the first call, or a surviving set "
@@ -254,7 +254,7 @@ _AMEND = {
     "C04": "Added: command names may be reused by commands that are not siblings (descendants, cousins); a positional value may be spelled like a "
            "command elsewhere in the tree (not a direct sub command of its level); a quarter of the cases without unconvertible token declare the "
            "library's own []string containers at every level, all with ONE shared default slice; a sub command on the path may own an option "
-           "spelled like the application's version flag; cases attributed to the greedy-group finding are still run and judged with that verdict. "
+           "spelled like the application's version flag; cases attributed to the greedy-group finding are still run and must follow either the greedy or the ideal verdict at that level. "
            "The streams are captured separately; C04 reads their union (it does not name a stream).",
     "C06": "Clause ownership: C06 reports only values (source precedence) of accepted runs; acceptance/strconv agreement is C13's, flags are C15's. "
            "Environment names are separated by one or two blanks (documented: a space separated list); list items are padded with space/TAB only.",
